@@ -1,6 +1,6 @@
 """C14 — print formatting equals C formatting (structural necessary conditions) and
 C15 shares the scanner analysis (see rules_c15)."""
-from . import ir, util, poly
+from . import ir, util, absmodel, poly
 from .report import site
 from .front import AnalysisBroken
 from .rules_c12 import guards_of, dominated_by_guard, throw_only, succ_of
@@ -174,14 +174,62 @@ def check_print(P, ctx):
 def check_show_to(P, ctx):
     rule = 'C14.show'
     fn = P.fn('show_to')
-    g = P.cfg(fn)
     ctx.fn(fn)
-    N = util.Norm(P, fn, inline=False)
-    ind = [(n, c) for n in g.live() if n['expr'] is not None for c in ir.calls(n['expr']) if ir.callee_name(c) is None and ir.top_nocast(c[1])[0] == 'arrow' and ir.top_nocast(c[1])[2] == 'show']
-    ok = len(ind) == 1 and ind[0][0]['kind'] == 'ret' and [N.canon(a) for a in ind[0][1][2]] == [('param', 0), ('param', 1), ('param', 2)]
-    nullg = guards_of(g, lambda cc, n_: True if cc == ir.canon(('bin', '==', ('param', 'self', 0), ('int', 0))) else None)
-    ok = ok and len(nullg) == 1 and ind[0][0]['id'] not in g.reach_from(succ_of(nullg[0][0], True))
-    ctx.check(ok, rule, 'show_to', site(fn), 'show_to returns what the type\'s own Show.show writes for (self, out, pos); a NULL object is written as text without dispatch')
+    # evaluated (cint): object NULL / not, type with / without a Show instance, instance with / without a show member
+    from . import cint
+    SELF_, OUT, POS0, FN, SHOWN = 5000, 2, 40, 4242, 9000
+    bad, unsup, ncase = None, None, 0
+    for selfv in (0, SELF_):
+        for has_inst in (0, 1):
+            for has_show in (0, 1):
+                events = []
+
+                def call(nm, e, it, selfv=selfv, has_inst=has_inst, has_show=has_show, events=events):
+                    if nm is None:
+                        f_ = it.ev(e[1])
+                        if f_ != FN:
+                            raise ShowMismatch('calls through an empty member')
+                        events.append(('dispatch', [it.ev(a_) for a_ in e[2]]))
+                        return SHOWN
+                    if nm in ('instance', 'type_instance', 'type_of', 'implements', 'implements_method_at_offset', 'type_implements'):
+                        if selfv == 0:
+                            raise ShowMismatch('looks up the type of a NULL object (%s)' % nm)
+                        if nm == 'instance':
+                            return ('ep', 'show', 0) if has_inst else 0
+                        if nm == 'type_of':
+                            return 8500
+                        return has_inst
+                    if nm == 'print_to_with':
+                        events.append(('sink', [it.ev(e[2][0]), it.ev(e[2][1])], ir.top_nocast(e[2][2])))
+                        return POS0 + 7
+                    raise cint.NoEval('call %s' % nm)
+                atoms = {('global', 'NULL'): 0, ('global', 'Terminal'): 7777, ('global', 'Show'): 8600, ('elem', 'show', 0, 'show'): FN if has_show else 0,
+                         ('elem', 'show', 0, 'look'): 0}
+                it = cint.CInt(P, fn, atoms=atoms, call=call, recurse=False, N=util.Norm(P, fn, expand_locals=False, inline=False))
+                label = 'object %s' % ('NULL' if selfv == 0 else 'of a type %s' % ('without Show' if not has_inst else ('whose Show has no show member' if not has_show else 'with a show function')))
+                try:
+                    r = it.run([selfv, OUT, POS0])
+                except ShowMismatch as x:
+                    bad = bad or '%s: %s' % (label, x)
+                    continue
+                ncase += 1
+                if r[0] == 'stuck':
+                    unsup = '%s: %s at %s' % (label, r[1], P.cfg(fn).describe(r[2]))
+                    continue
+                dispatch = selfv != 0 and has_inst and has_show
+                if dispatch:
+                    good = r[0] == 'ret' and events == [('dispatch', [selfv, OUT, POS0])] and r[1] == SHOWN
+                else:
+                    good = r[0] == 'ret' and len(events) == 1 and events[0][0] == 'sink' and events[0][1] == [OUT, POS0] and events[0][2][0] == 'str' and \
+                        '$' not in _fmt_items(events[0][2][1]) and r[1] == POS0 + 7
+                if not good:
+                    bad = bad or '%s: %s, returns %s' % (label, ', '.join('%s%s' % (e_[0], e_[1]) for e_ in events) or 'writes nothing', r[1] if r[0] == 'ret' else r[0])
+    ctx.stats['paths'] += ncase
+    if unsup and not bad:
+        ctx.undecided(rule, 'show_to', site(fn), 'show_to leaves the evaluated fragment: ' + unsup)
+    else:
+        ctx.check(bad is None, rule, 'show_to', site(fn), 'show_to returns what the type\'s own Show.show writes for (self, out, pos); a NULL object, and an object '
+                  'whose type has no show function, is written as literal text at the given position without dispatch (%d cases evaluated)' % ncase, [bad] if bad else None)
     # show functions write through literal formats only (an object\'s contents are never used as a format string)
     rule = 'C14.literal-formats'
     nsites = 0
@@ -258,19 +306,157 @@ def check_position_threaded(P, ctx):
     ctx.floor(rule, 8)
 
 
+class ShowMismatch(Exception):
+    pass
+
+
+class ShowUnsupported(Exception):
+    pass
+
+
+def _fmt_items(fmt):
+    """the conversion letters of a format string, in order ('$' for %$); %% is literal text"""
+    out, i = [], 0
+    while i < len(fmt):
+        if fmt[i] != '%':
+            i += 1
+            continue
+        if fmt[i + 1:i + 2] == '%':
+            i += 2
+            continue
+        j = i + 1
+        while j < len(fmt) and fmt[j] not in 'diuoxXcsfFeEgGaAp$':
+            j += 1
+        if j >= len(fmt):
+            break
+        out.append(fmt[j])
+        i = j + 1
+    return out
+
+
+def _initlist_items(e):
+    """the elements of the `(var[]){...}` literal that the tuple(...) macro builds, or None"""
+    found = []
+
+    def rec(x):
+        if isinstance(x, tuple):
+            if len(x) == 3 and x[0] == 'compound' and isinstance(x[1], str) and x[1].startswith('var[') and isinstance(x[2], tuple) and x[2][0] == 'initlist':
+                found.append(x[2][1])
+                return
+            for y in x:
+                rec(y)
+    rec(e)
+    return found[0] if len(found) == 1 else None
+
+
+def eval_container_show(P, T, is_map):
+    """Evaluate T's show function (cint, exact C conditions; the type's own accessors and cursor functions evaluated from their
+    source over the small instances of absmodel).  Every write goes through a sink call (print_to_with / show_to / format_to)
+    that is given a position and returns the next one.  Required: the objects shown with %$ are exactly the container's
+    elements (key then value for maps), each once, in iteration order; every sink call is given the position the previous one
+    returned (the caller's for the first); the function returns the last position.
+    Returns (scenarios, mismatch or None, unsupported or None)."""
+    from . import cint, absmodel
+    from .absmodel import TERM, SELF
+    fname = P.slot(T, 'Show', 'show')
+    fn = P.fn(fname)
+    POS0, OUT = 40, 2
+    n_eval = 0
+    scen = [(sc, False) for sc in absmodel.scenarios(T)] + ([(3, True)] if T == 'Tuple' else [])
+    for sc, dup in scen:
+        M = absmodel.build(P, T, sc)
+        label = M.label
+        if dup:                                     # the first object is stored again, third
+            M.atoms[('elem', 'items', 2, None)] = M.elems[0]
+            M.elems[2] = M.elems[0]
+            label += ', one object stored twice'
+        n = M.n
+        elems = [x for kv in zip(M.elems, M.vals) for x in kv] if is_map else list(M.elems)
+        shown, state = [], {'pos': POS0}
+
+        def sink(pos_in, what, it):
+            if pos_in != state['pos']:
+                raise ShowMismatch('%s is given position %s, the previous write returned %s' % (what, pos_in, state['pos']))
+            state['pos'] += 7
+            return state['pos']
+
+        def call(nm, e, it):
+            if nm == 'print_to_with':
+                if len(e[2]) != 4 or ir.top_nocast(e[2][2])[0] != 'str':
+                    raise ShowUnsupported('print_to with a format that is not a literal')
+                items = _initlist_items(e[2][3])
+                if items is None:
+                    raise ShowUnsupported('print_to whose argument tuple is not the tuple(...) literal')
+                vals_ = []
+                for x in items:
+                    v = it.ev(x)
+                    if v == TERM:
+                        break
+                    vals_.append(v)
+                convs = _fmt_items(ir.top_nocast(e[2][2])[1])
+                if len(convs) > len(vals_):
+                    raise ShowMismatch('format %r has %d conversions, %d arguments are passed' % (ir.top_nocast(e[2][2])[1], len(convs), len(vals_)))
+                if it.ev(e[2][0]) != OUT:
+                    raise ShowMismatch('writes to something that is not the output it was given')
+                for c, v in zip(convs, vals_):
+                    if c == '$':
+                        shown.append(v)
+                return sink(it.ev(e[2][1]), 'print_to(%r)' % ir.top_nocast(e[2][2])[1], it)
+            if nm == 'show_to':
+                shown.append(it.ev(e[2][0]))
+                if it.ev(e[2][1]) != OUT:
+                    raise ShowMismatch('writes to something that is not the output it was given')
+                return sink(it.ev(e[2][2]), 'show_to', it)
+            if nm in ('format_to', 'format_to_va'):
+                if it.ev(e[2][0]) != OUT:
+                    raise ShowMismatch('writes to something that is not the output it was given')
+                return sink(it.ev(e[2][1]), nm, it)
+            if nm == 'len' and it.ev(e[2][0]) == SELF:
+                return n
+            raise cint.NoEval('call %s' % nm)
+        it = cint.CInt(P, fn, atoms=M.atoms, call=call, recurse=True, mem=M.mem, N=util.Norm(P, fn, expand_locals=False, inline=False), max_steps=4000)
+        try:
+            r = it.run([SELF, OUT, POS0])
+        except absmodel.Mismatch as mm:
+            return n_eval, '%s: %s' % (label, mm), None
+        except ShowMismatch as mm:
+            return n_eval, '%s: %s' % (label, mm), None
+        n_eval += 1
+        if r[0] == 'stuck' and r[1] == 'step bound':
+            return n_eval, '%s: the walk does not end (4000 steps)' % label, None
+        if r[0] == 'stuck':
+            return n_eval, None, '%s: %s at %s' % (label, r[1], P.cfg(fn).describe(r[2]))
+        if r[0] != 'ret':
+            return n_eval, '%s: the function does not return (%s)' % (label, r[1]), None
+        if shown != elems:
+            def nm_(v):
+                return ('element %s' % '/'.join(str(i + 1) for i, x in enumerate(elems) if x == v)) if v in elems else 'something that is no element (%s)' % (v,)
+            return n_eval, '%s: shows [%s], the elements in order are %d' % (label, ', '.join(nm_(v) for v in shown), len(elems)), None
+        if r[1] != state['pos']:
+            return n_eval, '%s: returns %s, the last write returned position %s' % (label, r[1], state['pos']), None
+    return n_eval, None, None
+
+
 def check_container_show_walk(P, ctx):
-    """%$ of a container shows each element once, in order.  Tuple's cursor functions look the cursor up by identity (first match:
-    a recorded finding of C11), so a show function that walks a Tuple with them shows the wrong element when an object is stored
-    twice; the library's own code must index the element array instead."""
+    """%$ of a container shows each element once, in order, and the position is threaded through every write: the show
+    function of each container type is evaluated on abstract containers (eval_container_show)."""
     rule = 'C14.container-show-walk'
-    searching = {P.slot('Tuple', 'Iter', 'iter_next', required=False), P.slot('Tuple', 'Iter', 'iter_prev', required=False)} - {None}
-    for T in ('Tuple',):
+    for T, is_map in (('Array', False), ('List', False), ('Tuple', False), ('Table', True), ('Tree', True)):
         fn = P.fn(P.slot(T, 'Show', 'show'))
         ctx.fn(fn)
-        used = sorted({ir.callee_name(c) for c, _ in ir.all_calls(fn['body']) if ir.callee_name(c) in searching})
-        ctx.check(not used, rule, '%s.Show.show' % T, site(fn), 'the elements are taken by index, not through the identity-searching cursor functions',
-                  ['calls %s' % ', '.join(used)] if used else None)
-    ctx.floor(rule, 1)
+        key = '%s.Show.show' % T
+        try:
+            n, bad, unsup = eval_container_show(P, T, is_map)
+        except (ShowUnsupported, absmodel.Unsupported) as x:
+            n, bad, unsup = 0, None, str(x)
+        ctx.stats['paths'] += n
+        if unsup:
+            ctx.undecided(rule, key, site(fn), 'the show function leaves the evaluated fragment: ' + unsup)
+            continue
+        ctx.check(bad is None, rule, key, site(fn),
+                  'on small containers (0..3 elements; Table: every occupancy of up to 4 slots; Tree: every shape of up to 4 nodes) the objects shown with %%$ are the elements, each once, in order; every write is given the '
+                  'position the previous one returned and the last position is returned (%d scenarios evaluated)' % n, [bad] if bad else None)
+    ctx.floor(rule, 5)
 
 
 def check_string_sink(P, ctx):
